@@ -11,6 +11,7 @@ from rvproof.contract import contract
 
 from . import common as K
 from . import links as L
+from . import rw
 
 TECHNIQUE = "contract-based deductive verification of range containment for every target span with an exact rational float model (z3); quantisation / non-default curves / monotonicity as labelled bounded stand-in"
 LEVEL = "other"
@@ -113,7 +114,7 @@ def _class_cases(tier):
     return [(K.cls_id(c), K.cls_id(c)) for c in K.module_classes() if c.mtype not in ("Output",) and c.controllers]
 
 
-@contract("macro_builds_linked_multictl", ["C20"], targets=_T[2:5], cases=_class_cases)
+@contract("macro_builds_linked_multictl", ["C20", "C01"], targets=_T[2:5], cases=_class_cases)
 def macro_builds_linked_multictl(H, cname):
     """MultiCtl.macro(project, (module, controller)) for every controller of the class (by name and by
     Controller object): returns a MultiCtl attached to the project, linked to the target (tables
@@ -135,6 +136,27 @@ def macro_builds_linked_multictl(H, cname):
         H.check(f"mapping_names_controller[{name}]", mp.controller == ctl.number)
         H.check(f"mapping_has_8_fields[{name}]", all(hasattr(mp, f) for f in ("min", "max", "controller", "flags", "future_use2", "future_use3", "future_use4", "future_use5")))
         H.check(f"other_mappings_default[{name}]", all(x.controller == 0 for x in mc.mappings.values[1:]))
+    # a macro built with nothing but the defaults of the public API is part of a project that can be
+    # saved and loaded again (C01), and the MultiCtl comes back with its mapping, gain and link
+    name, ctl = next((n, c) for n, c in cls.controllers.items() if not n.startswith("user_defined_"))
+    p = Project()
+    target = p.new_module(cls)
+    exc, mc = H.raises(MultiCtl.macro, p, (target, name))
+    H.check("default_macro_succeeds", exc is None and type(mc) is MultiCtl)
+    if exc is not None:
+        return
+    H.check("default_macro_has_a_text_name", isinstance(mc.name, str))
+    exc, data = H.raises(rw.write_container, H, p)
+    H.check("project_with_default_macro_can_be_saved", exc is None)
+    if exc is not None:
+        return
+    p2 = rw.read_back(H, data)
+    mc2 = p2.modules[mc.index] if len(p2.modules) > mc.index else None
+    H.check("default_macro_reloads", type(mc2) is MultiCtl and mc2.name == mc.name and mc2.gain == mc.gain
+            and mc2.out_links == mc.out_links and L.links_ok(p2) is None)
+    if type(mc2) is MultiCtl:
+        a, b = mc.mappings.values[0], mc2.mappings.values[0]
+        H.check("default_macro_mapping_reloads", (b.min, b.max, b.controller) == (a.min, a.max, a.controller))
 
 
 @contract("macro_refusals", ["C20"], targets=_T[2:3])
